@@ -46,3 +46,24 @@ Definition check_crash (c : crash_case) : bool :=
   && forallb (fun kp => disk_eqb (cfiles (run_prefix (fst kp) steps (init_state f))) (snd kp)) obs_pref
   && disk_eqb (cfiles (run steps (init_state f)))
               (map (fun e => (fst e, files (apply_plan KDeploy (Build_world f []) roots D pl) (P (fst e)))) disk).
+
+(* ---- rollback: trace of the fault points and crash-prefix disks vs steps_of_rollback ---- *)
+(* a snapshot as the harness reads it from <id>.json and the state/ tree: managed files
+   (target, path, content id) and the manifests it wrote (target, path, bytes in state/) *)
+Definition SN (managed : list (str * str * N)) (mans : list (str * str * fobj)) : snapshot :=
+  {| sn_kind := KDeploy;
+     sn_managed := map (fun e => (fst (fst e), P (snd (fst e)), snd e)) managed;
+     sn_changes := map (fun e => Build_achange (fst (fst e)) AUpdate (P (snd (fst e))) None (Some (snd e))) mans;
+     sn_to := None; sn_state := true |}.
+
+Definition rb_case :=
+  (list (str * fobj) * snapshot * snapshot * list obs_line * list (nat * list (str * option fobj)) *
+   list (str * option fobj))%type.
+
+Definition check_rollback_crash (c : rb_case) : bool :=
+  let '(disk, tgt, cur, obs_tr, obs_pref, obs_final) := c in
+  let f := mkfs disk in
+  let steps := steps_of_rollback f tgt cur in
+  list_eqb line_eqb (map step_obs steps) (map norm_line obs_tr)
+  && forallb (fun kp => disk_eqb (cfiles (run_prefix (fst kp) steps (init_state f))) (snd kp)) obs_pref
+  && disk_eqb (cfiles (run steps (init_state f))) obs_final.
